@@ -115,13 +115,14 @@ func splitRespectingQuotes(text string, delimiter byte) []string {
 	return parts
 }
 
-var (
-	backslashEscape = regexp.MustCompile(`\\(.)`)
-	unescapedComma  = regexp.MustCompile(`(?:\\.|[^,])+`)
-)
+var unescapedComma = regexp.MustCompile(`(?:\\.|[^,])+`)
 
+// unescapeQuoted undoes the one escape the XFCC grammar defines: a double
+// quote inside a quoted value is written \". Every other backslash belongs
+// to the value — an RFC 2253 subject escapes its own commas (CN=Doe\, John),
+// and extractCN relies on finding them still escaped.
 func unescapeQuoted(text string) string {
-	return backslashEscape.ReplaceAllString(text, "$1")
+	return strings.ReplaceAll(text, `\"`, `"`)
 }
 
 // extractCN extracts the CN value from an RFC 4514 or similar DN string.
